@@ -31,6 +31,12 @@ fn msg_code(m: &str) -> u32 {
         "wrong number of values for the beta 0 function" => 1,
         "wrong number of values for the beta 1 function" => 2,
         "wrong number of values for the beta 2 function" => 3,
+        "non-null image of the null dart" => 4,
+        "beta image is not an existing dart" => 5,
+        "beta 0 is not the inverse of beta 1" => 6,
+        "beta 2 is not a fixed-point-free involution" => 7,
+        "unused ID is not a free dart, or is listed twice" => 8,
+        "vertex ID is not an existing dart" => 9,
         // BadValue
         "could not parse a b0 value" => 0,
         "could not parse a b1 value" => 1,
